@@ -78,6 +78,25 @@ def fs_fault_for(op, n):
     return None
 
 
+def change_started(link, t0):
+    """The manager began a PIN change in this lifetime: after an answered unlock, a PIN byte or a
+    change command was put on the wire (whether or not it arrived)."""
+    unlocked = False
+    for e in link.transport[t0:]:
+        if e[0] == "open":
+            unlocked = False          # a new connection: PIN bytes after it belong to its own unlock
+        if e[0] != "xchg" or len(e[2]) < 2:
+            continue
+        ins = e[2][1]
+        # (unfaulted entries are (xchg, index, apdu, answer, status); faulted ones carry the kind too)
+        answered = len(e) == 5 and e[-1] == "9000"
+        if ins in (0xFE, 0xA3) and answered:
+            unlocked = True
+        elif unlocked and ins in (0x41, 0x08, 0xA5):
+            return True
+    return False
+
+
 def file_pin(w):
     data = w.fs.read_bytes(PIN_PATH)
     if data is None:
@@ -140,6 +159,7 @@ def run_one(ch, cfg):
         fs.fault_fn = None
         link.fault_fn = None
         seam0 = w.seam_count
+        transport0 = len(link.transport)
         fsop0 = fs.opcount
         pinx = {"n": 0}
         kinds = HID_KINDS if platform == "ledger" else TCP_KINDS
@@ -166,7 +186,20 @@ def run_one(ch, cfg):
             ordinal = (fp // 8) % 24
             kind = kinds[(fp % 8) % len(kinds)]
 
-            def lfn(i, apdu, ordinal=ordinal, kind=kind, life=life):
+            # positions 192..255: the fault does not go away - from that exchange on the link stays
+            # broken for the rest of the lifetime (cable pulled, device gone silent)
+            persist = fp // 8 >= 24
+            if persist:
+                # aim at the exchanges of the new PIN (Ledger: the 9th..17th PIN exchange; SGX: any)
+                ordinal = 9 + (fp // 8 - 24) if platform == "ledger" else (fp // 8) % 3
+            # ... for the next one or two exchanges as well, or for good
+            burst = [1, 2, 1000][(fp // 8) % 3]
+            gone = {"on": False, "left": 0}
+
+            def lfn(i, apdu, kind=kind, life=life):
+                if gone["on"] and gone["left"] > 0:
+                    gone["left"] -= 1
+                    return kind
                 if len(apdu) > 1 and apdu[1] in PIN_INS:
                     n = pinx["n"]
                     pinx["n"] += 1
@@ -175,6 +208,8 @@ def run_one(ch, cfg):
                         if apdu[1] in (0x08, 0xA5) and kind in ("read_err_after", "timeout_after",
                                                                 "recv_eof_after"):
                             life["lost_ack"] = True
+                        gone["on"] = persist
+                        gone["left"] = burst
                         return kind
                 return None
             link.fault_fn = lfn
@@ -229,7 +264,9 @@ def run_one(ch, cfg):
                 if link.open_handle is not None:
                     link.open_handle.opened = False
                 replies.append(ask())          # link failure -> device error, repair pending
+                t3 = len(link.transport)
                 replies.append(ask(gives_up=impatient))    # repair: bring-up through the bootloader
+                done["attempt_in_repair_request"] = change_started(link, t3)
                 attempted = any(kd == "newpin" for kd, _ in dev.pins_seen[seen_before:])
                 r4 = ask()                     # is the manager still serving afterwards?
                 done["attempted_before_probe"] = attempted
@@ -244,7 +281,13 @@ def run_one(ch, cfg):
             except StepCap:
                 pass
             life["serve_replies"] = [r[:40].decode("latin-1") if r else None for r in replies]
-            attempted = any(kd == "newpin" for kd, _ in dev.pins_seen[seen_before:])
+            # the request during which the change was attempted ends the manager: its client sees the
+            # reply of a manager going down (no result code), never a regular result code
+            if done.get("attempt_in_repair_request") and len(replies) >= 3 and replies[2] and \
+                    b'"errorcode"' in replies[2]:
+                life["attempt_answered_normally"] = replies[2][:60].decode("latin-1")
+            attempted = any(kd == "newpin" for kd, _ in dev.pins_seen[seen_before:]) or \
+                change_started(link, transport0)
             if attempted:
                 # the shutdown is carried out by a helper thread: a request already queued may still
                 # be handled in that window; what must not happen is that the manager keeps running
@@ -267,8 +310,8 @@ def run_one(ch, cfg):
         crashed = any(c[0] == proc for c in w.crashed)
         new_acks = dev.newpin_acks[acks_before:]
         new_seen = [p for (kind, p) in dev.pins_seen[seen_before:] if kind == "newpin"]
-        life["attempt"] = bool(new_seen) or (life["fault"] is not None and life["fault"][0] == "link"
-                                             and life["fault"][1] in ("08", "a5"))
+        life["attempt"] = bool(new_seen) or change_started(link, transport0) or (
+            life["fault"] is not None and life["fault"][0] == "link" and life["fault"][1] in ("08", "a5"))
         end_file = fs.read_bytes(PIN_PATH)
         tag = "life %d/%d (%s, init %s, force=%s, device %s, fault %s, outcome %s)" % (
             si + 1, nstarts, platform, init, force, newpin, life["fault"], w.outcomes.get(proc))
@@ -298,6 +341,9 @@ def run_one(ch, cfg):
                 bad("I2/file-changed-without-ack", "%s: file %r -> %r" % (tag, start_file, end_file))
             if dev.pin != start_devpin:
                 bad("I2/device-pin-changed-without-ack", tag)
+        if life.get("attempt_answered_normally"):
+            bad("I4/change-attempt-answered-with-a-result-code", "%s: the request that attempted the "
+                "change was answered %s and the manager went on" % (tag, life["attempt_answered_normally"]))
         # ---- I4: after any change attempt the process stops without serving
         if life["attempt"] and (served or served_after_attempt):
             bad("I4/served-after-change-attempt%s" % ("/on-reconnection" if served_after_attempt
